@@ -66,16 +66,28 @@ def run(ck):
     ck.ob("C02-R1", "table:Method", not probs, "%s:%s" % (tbl[0]["file"], tbl[0]["line"]), "", "; ".join(probs[:3]) or "%d method tokens agree" % len(w))
     vw = tables.switch_map(lib.single(prog, H + "versionString"))
     rq = lib.single(prog, H + "Private::RequestLineStep::apply")
-    rq_lits = {lit: en for lit, en in tables.chain_pairs(rq)}
+    rq_pairs = {lit: en for lit, en in tables.chain_pairs(rq)}
+    rq_lits = tables.compared_literals(rq)
+    rq_enums = {x.rsplit("::", 1)[-1] for x in tables.assigned_enums(rq, "version_")}
     rs = lib.single(prog, H + "Private::ResponseLineStep::apply")
-    rs_lits = {a["const"][2:] for e in rs.calls(lambda e: (e.get("callee") or "") == "Pistache::match_raw") for a in e.get("args", [])[:1] if isinstance(a.get("const"), str)}
+    rs_lits = tables.compared_literals(rs)
     probs = []
     for en, lit in vw.items():
-        if rq_lits.get(lit, "").rsplit("::", 1)[-1] != en.rsplit("::", 1)[-1]:
-            probs.append("version %r (%s) is not accepted as such by the request-line parser" % (lit, en.rsplit("::", 1)[1]))
+        short = en.rsplit("::", 1)[-1]
+        if lit in rq_pairs:
+            # the reader is an if-chain `compare(literal) -> version_ = X`: the pairing itself is checked
+            if rq_pairs[lit].rsplit("::", 1)[-1] != short:
+                probs.append("version %r is written for %s but the request-line parser stores %s for it" % (lit, short, rq_pairs[lit].rsplit("::", 1)[-1]))
+        else:
+            # other shapes (flags, ?:): the literal must be compared against and the enumerator must be stored somewhere in the step
+            if lit not in rq_lits:
+                probs.append("version %r (%s) is not compared against by the request-line parser" % (lit, short))
+            if short not in rq_enums:
+                probs.append("the request-line parser never stores Version::%s" % short)
         if lit not in rs_lits:
             probs.append("version %r is not accepted by the response-line parser" % lit)
-    ck.ob("C02-R1", "table:Version", not probs and len(vw) >= 2, rq.loc, rq, "; ".join(probs[:3]) or "versions %s accepted by both line parsers" % sorted(vw.values()))
+    ck.ob("C02-R1", "table:Version", not probs and len(vw) >= 2, rq.loc, rq, "; ".join(probs[:3]) or "versions %s accepted by both line parsers%s" % (
+        sorted(vw.values()), "" if all(l in rq_pairs for l in vw.values()) else " (reader is not an if-chain: literal/enumerator presence checked, pairing not)"))
     wr = lib.single(prog, CL + "writeRequest")
     lits = [p_[1] for p_ in stream_sequence(wr) if p_[0] == "lit"]
     vlit = [l.strip() for l in lits if "HTTP/" in l]
